@@ -8,6 +8,7 @@ use crate::common::appdata::AppShareData;
 use crate::common::model::{ApiResultOld, UserSession};
 use crate::raft::cluster::model::{RouterRequest, RouterResponse};
 use crate::user::permission::UserRole;
+use crate::user::{UserManagerReq, UserManagerResult};
 use actix_http::{HttpMessage, StatusCode};
 use actix_web::{
     body::EitherBody,
@@ -180,6 +181,27 @@ where
     }
 }
 
+/// The session keeps the namespace privilege the user had when he logged in.
+/// The user record is the source of truth: a privilege changed after the login
+/// has to apply to the sessions that already exist.
+async fn apply_current_namespace_privilege(
+    app_share_data: &Arc<AppShareData>,
+    session: Arc<UserSession>,
+) -> Arc<UserSession> {
+    let req = UserManagerReq::Query {
+        name: session.username.clone(),
+    };
+    if let Ok(Ok(UserManagerResult::QueryUser(Some(user)))) =
+        app_share_data.user_manager.send(req).await
+    {
+        let mut new_session = session.as_ref().clone();
+        new_session.namespace_privilege = user.namespace_privilege;
+        Arc::new(new_session)
+    } else {
+        session
+    }
+}
+
 async fn get_user_session(
     app_share_data: &Arc<AppShareData>,
     token: Arc<String>,
@@ -193,7 +215,9 @@ async fn get_user_session(
         .send(req.clone())
         .await??
     {
-        Ok(Some(session))
+        Ok(Some(
+            apply_current_namespace_privilege(app_share_data, session).await,
+        ))
     } else {
         //再尝试从raft主节点中获取
         if let RouterResponse::CacheQueryResult {
@@ -203,7 +227,9 @@ async fn get_user_session(
             .request_from_main(app_share_data, RouterRequest::CacheQuery { req })
             .await?
         {
-            Ok(Some(v))
+            Ok(Some(
+                apply_current_namespace_privilege(app_share_data, v).await,
+            ))
         } else {
             Ok(None)
         }
